@@ -27,8 +27,13 @@ Apply(kind, p, ins) ==
     [] kind = "descramble" -> F!Descramble(p, ins)
     [] kind = "hdlc" -> << Flatten(H!Deframe([min |-> p.min, max |-> p.max, check |-> TRUE, fix |-> FALSE], ins[1])) >>
     [] kind = "v2s" -> F!V2S(p, ins)
+    [] kind = "slow" -> << ins[1] >>
     [] kind = "sink" -> << ins[1] >>
 
+(* TLC keeps [k \in S |-> e] as an unevaluated function: applying it re-evaluates *)
+(* e, so a chain of such blocks costs the product of their fan-ins. SubSeq builds  *)
+(* an explicit tuple.                                                             *)
+Force(outs) == [j \in 1 .. Len(outs) |-> SubSeq(outs[j], 1, Len(outs[j]))]
 (* values of nodes 1..k, each computed once *)
 RECURSIVE ValsUpTo(_, _)
 ValsUpTo(g, k) ==
@@ -36,7 +41,7 @@ ValsUpTo(g, k) ==
   ELSE LET prev == ValsUpTo(g, k - 1)
            n == g[k]
            ins == [i \in 1 .. Len(n.ins) |-> prev[n.ins[i][1]][n.ins[i][2]]]
-       IN Append(prev, TLCEval(Apply(n.kind, n.p, ins)))
+       IN Append(prev, TLCEval(Force(Apply(n.kind, n.p, ins))))
 (* what sink node i must hold when the run is over *)
 SinkContent(g, i) == ValsUpTo(g, i)[i][1]
 =============================================================================
